@@ -309,6 +309,11 @@ func c10Run(x *mc.X, hist c10Hist, logger string, replay []int, record *[]int) (
 			x.Failf("both response and error: "+hist.name+" fault="+fk, "%s: %v", what, o.Err)
 			return
 		}
+		if o.Err == nil && o.Status == http.StatusNotModified && len(o.Calls) > 0 && o.Calls[len(o.Calls)-1].RespCode == http.StatusNotModified {
+			// (a 304 that the harness itself planted in the store as a damaged entry is not the transport's doing)
+			x.Failf("the origin's 304 to the cache's own conditional request was handed to a client that sent none: "+hist.name+" fault="+fk, "%s: %s", what, o)
+			return
+		}
 		originFailed := false
 		for _, c := range o.Calls {
 			if c.Err != nil {
